@@ -108,6 +108,24 @@ def relations(cases, impl, model):
             REL_STATS["timer_histories_checked"] += 1
             why = timer_relations(case, ires)
             if why: yield dict(case=case, tag=tag, why=why, implementation=dict(result=ires))
+    # a request times out only when something raised the flag DURING it: solve / solve_all start their own timer, which
+    # clears the flag, and a (stop-after n) schedule applies to the next request only - whatever happened to earlier
+    # requests and whichever node is asked
+    for (case, tag), (iout, ires) in zip(cases, impl):
+        if not (case.startswith("(hist") and ires.startswith("(obs")): continue
+        try: ops = parse(case)[2:]; obs = parse(ires)[1:]
+        except Exception: continue
+        pending = False
+        for op, o in zip(ops, obs):
+            if op[0] == "stop-after": pending = True; continue
+            if op[0] in ("solve", "solve-all") and isinstance(o, list) and o and o[0] in ("str", "strs"):
+                texts = [histcheck.novarid(unS(x)) for x in (o[1:-1] if o[0] == "strs" else o[1:2])]
+                REL_STATS["requests_checked_for_unprovoked_timeout"] = REL_STATS.get("requests_checked_for_unprovoked_timeout", 0) + 1
+                if texts and texts[-1] == MSG and not pending:
+                    yield dict(case=case, tag=tag, why="%s reports a timeout although nothing raised the stop flag during this request (a flag left over from an earlier request?)" % op[0],
+                               implementation=dict(result=ires))
+                    break
+            if op[0] in ("ask", "solve", "solve-all"): pending = False
     for (case, tag), (iout, ires), (mout, mres, spec) in zip(cases, impl, model):
         if "(trace" not in spec or not ires.startswith("(obs"):
             REL_STATS["reference_outside_or_unfinished"] += 1; continue
